@@ -1,33 +1,48 @@
 /-
 C16 — Concurrent parts are race-free and schedule-independent  (level `other`: partial).
 
-What is proved here is about the three Lean models (Model/Worklist, Model/Cache, Gen/Ticker); the Go
-memory model below the granularity of the callbacks / critical sections and the race detector's view of
-the executed schedules are runtime (checks/c16.py runs them and says so in META).
+What is proved here is about the Lean models (Model/Worklist, Model/Cache + Model/CacheLin; the two regenerated access
+tables have their own modules C16Ticker.lean / C16CacheTable.lean); the Go memory model below the granularity of the
+callbacks / critical sections and the race detector's view of the executed schedules are runtime (checks/c16.py runs
+them and says so in META).
 
-(a) `common.ComputePatches` as a nondeterministic worklist — every schedule that runs to completion
-    collects the same multiset of patches (`C16_confluent`), the sorted, de-duplicated result is the same list
-    (`C16_final`, under the explicit hypothesis `CmpEqImpliesEq`), `Patch.Compare` satisfies `SortFunc`'s
-    precondition among patches with ≥ 1 update (`C16_patchcmp_order`; NOT when parsable and unparsable target
-    versions are mixed: `C16_patchcmp_mixed_cycle`), the loop terminates when the vulnerabilities that can be
-    introduced form a finite set (`C16_terminates`).
-(b) `RequestCache` at lock granularity — invariant over all interleavings (`C16_cache_inv`), the fetch function
-    runs at most once per success between SetMaps (`C16_cache_once`), every returned result is the published
-    result of a fetch for the same key or a value installed by SetMap (`C16_cache_linear`), all parties of one
-    call see one result (`C16_cache_shared`).
-(c) the status ticker — over the table regenerated from extractor/filesystem on every run, every conflicting
-    pair of accesses (ticker goroutine vs. walking goroutine, same field, one a write) is inside
-    `statusMu.Lock()`…`Unlock()` on both sides (`C16_ticker_guarded`).
+WHAT IS NONDETERMINISTIC AND WHAT IS NOT, in model (a).  The nondeterminism is the *scheduling of the patch attempts*:
+which pending attempt's result the collector receives next (`exec σ`, σ any list of positions), hence the order in
+which patches are appended and follow-up attempts are launched.  An attempt itself is ONE step: `patchFn : Task → Option
+Patch` is a function of the vuln-id list.  That is an assumption about the callbacks the attempts make, not a theorem:
+the resolve client (`Versions`, `Requirements`, `MatchingVersions`) and the vulnerability matcher are assumed to answer
+as functions of their arguments, whatever else runs concurrently, and attempts share no other mutable state (each works
+on `resolved.Manifest.Clone()`).  The theorems therefore do NOT cover interleavings *inside* an attempt at callback
+granularity; what covers them is (i) part (b): the one piece of state the real clients share between attempts, the
+request caches, is linearizable and single-flight (`C16_cache_linearizable_partial`, `C16_cache_once`), i.e. a client built
+on it answers as a function of its arguments provided the upstream does; (ii) the harness: free runs of the real
+ComputePatches whose attempts go through a shared, stateful, linearizable fake client (a real RequestCache under
+Gosched/sleep perturbation, GOMAXPROCS 1/16, also under -race) must return the schedule-free result.
+With `patchFn` a function, confluence of the *multiset* is close to "by construction" — the content of (a) is the rest:
+the launched follow-ups depend on the delivered result (so the set of attempts is a closure, `C16_tasks_confluent`), the
+final list is only schedule-free under the two hypotheses of `C16_final_partial`, both of which fail on concrete
+inputs (`C16_final_needs_cmpeq`, `C16_patchcmp_mixed_cycle`), and the loop needs a finiteness hypothesis to terminate.
+
+(a) `common.ComputePatches` as a nondeterministic worklist — `C16_confluent`, `C16_final_partial`, `C16_patchcmp_order_partial`,
+    `C16_terminates_partial` and the decided counterexamples to their unrestricted forms.
+(b) `RequestCache` at lock granularity — `C16_cache_inv`, `C16_cache_once`, `C16_cache_linearizable_partial` (+ the decided
+    non-linearizable history with an overlapping SetMap), `C16_cache_provenance`, `C16_cache_content`, `C16_cache_shared`.
+    Lock discipline of the struct fields: `C16_cache_guarded` (C16CacheTable.lean, regenerated table).
+(c) the status ticker — `C16_ticker_guarded` (C16Ticker.lean, regenerated table).
 -/
 import Scalibr.Proofs.Worklist
 import Scalibr.Proofs.WorklistSort
 import Scalibr.Proofs.Cache
+import Scalibr.Proofs.CacheLin
+import Scalibr.Spec.Worklist
 namespace Scalibr.C16
 open Scalibr Scalibr.Worklist
 
 /-! ## (a) ComputePatches -/
 
-/-- **C16_confluent.** For every strategy function, both spawning modes and every list of initial
+/-- **C16_confluent.** (Nondeterminism = the delivery order σ of attempt results; `patchFn`, i.e. the attempt with all
+its resolve-client / matcher callbacks, is assumed to be a function of the id list — see the file header.)
+For every strategy function, both spawning modes and every list of initial
 vulnerabilities: two schedules (lists of positions in the pending list — every delivery order the Go scheduler
 can produce) that run to completion collect permutations of one multiset of patches. -/
 theorem C16_confluent (patchFn : Task → Option Patch) (grouped : Bool) (vulns : List Str)
@@ -43,29 +58,10 @@ theorem C16_tasks_confluent {τ : Type} [DecidableEq τ] (spawn : τ → List τ
     (h : Runs spawn P ps) (h' : Runs spawn P ps') : ps.Perm ps' :=
   h.confluent P ps' h' (List.Perm.refl _)
 
-/-- patches that `Compare` equal are identical — NOT a theorem of the code (`Compare` ignores the ids in
-`Fixed`/`Introduced`, `VersionFrom`, `Transitive`, `Type`): an explicit hypothesis, evaluated by the harness on
-every generated universe -/
-def CmpEqImpliesEq (vc : Str → Str → Int) (c : List Patch) : Prop :=
-  ∀ a ∈ c, ∀ b ∈ c, Patch.compare vc a b = 0 → a = b
-
-instance (vc : Str → Str → Int) (c : List Patch) : Decidable (CmpEqImpliesEq vc c) := by
-  unfold CmpEqImpliesEq; exact inferInstance
-
-theorem collected_ok (patchFn : Task → Option Patch) (grouped : Bool) (vulns : List Str) (σ : List Nat) (c : List Patch)
-    (h : exec (outCP patchFn) (spawnCP patchFn grouped) σ (initCP vulns) = some ⟨[], c⟩) :
-    ∀ p ∈ c, p.updates ≠ [] := by
-  obtain ⟨ps, _, hc⟩ := exec_runs _ _ σ _ _ h rfl
-  simp only [initCP, List.nil_append] at hc
-  intro p hp
-  rw [hc] at hp
-  obtain ⟨t, _, ht⟩ := List.mem_filterMap.mp hp
-  exact (outCP_some ht).2
-
-/-- **C16_final.** The value `ComputePatches` returns (sort by `Patch.Compare`, compact) is the same under any two
+/-- **C16_final_partial.** The value `ComputePatches` returns (sort by `Patch.Compare`, compact) is the same under any two
 complete schedules, provided (i) the per-version comparison is a strict weak order on a set `V` containing the
 target versions of the collected patches and (ii) `CmpEqImpliesEq` holds for the collected patches. -/
-theorem C16_final (patchFn : Task → Option Patch) (grouped : Bool) (vulns : List Str)
+theorem C16_final_partial (patchFn : Task → Option Patch) (grouped : Bool) (vulns : List Str)
     (V : Str → Prop) (vc : Str → Str → Int) (hvc : Cmp3 (fun x y => V x ∧ V y) vc)
     (σ σ' : List Nat) (c c' : List Patch)
     (h : exec (outCP patchFn) (spawnCP patchFn grouped) σ (initCP vulns) = some ⟨[], c⟩)
@@ -87,7 +83,7 @@ theorem C16_final (patchFn : Task → Option Patch) (grouped : Bool) (vulns : Li
     exact hce a ha b hb (cmp3_eq_zero h3 a b ⟨⟨hok a ha, hV a ha⟩, ⟨hok b hb, hV b hb⟩⟩ h1 h2)
 
 /-- the same statement about the function value `computePatches` -/
-theorem C16_schedule_independent (patchFn : Task → Option Patch) (grouped : Bool) (vulns : List Str)
+theorem C16_schedule_independent_partial (patchFn : Task → Option Patch) (grouped : Bool) (vulns : List Str)
     (V : Str → Prop) (vc : Str → Str → Int) (hvc : Cmp3 (fun x y => V x ∧ V y) vc)
     (σ σ' : List Nat) (r r' : List Patch)
     (h : computePatches patchFn grouped vc vulns σ = some r)
@@ -118,7 +114,7 @@ theorem C16_schedule_independent (patchFn : Task → Option Patch) (grouped : Bo
             intro q hq; rw [hc] at hq
             obtain ⟨t, _, ht⟩ := List.mem_filterMap.mp hq
             exact ⟨t, ht⟩
-          apply C16_final patchFn grouped vulns V vc hvc σ σ' c c' he he'
+          apply C16_final_partial patchFn grouped vulns V vc hvc σ σ' c c' he he'
           · intro q hq u hu
             obtain ⟨t, ht⟩ := hmem q hq
             exact hV t q (outCP_some ht).1 u hu
@@ -126,7 +122,7 @@ theorem C16_schedule_independent (patchFn : Task → Option Patch) (grouped : Bo
 
 /-- every complete schedule returns what the breadth-first closure (the executable specification the driver
 prints as `spec=`) returns -/
-theorem C16_spec (patchFn : Task → Option Patch) (grouped : Bool) (vulns : List Str)
+theorem C16_spec_partial (patchFn : Task → Option Patch) (grouped : Bool) (vulns : List Str)
     (V : Str → Prop) (vc : Str → Str → Int) (hvc : Cmp3 (fun x y => V x ∧ V y) vc)
     (σ : List Nat) (c : List Patch) (n : Nat)
     (h : exec (outCP patchFn) (spawnCP patchFn grouped) σ (initCP vulns) = some ⟨[], c⟩)
@@ -139,18 +135,23 @@ theorem C16_spec (patchFn : Task → Option Patch) (grouped : Bool) (vulns : Lis
     cases hh : fifo (outCP patchFn) (spawnCP patchFn grouped) n (initCP vulns) with
     | mk p c' => rw [hh] at hf; simp at hf; subst hf; rfl
   rw [this] at hσ'
-  exact C16_final patchFn grouped vulns V vc hvc σ σ' c _ h hσ' hV hce
+  exact C16_final_partial patchFn grouped vulns V vc hvc σ σ' c _ h hσ' hV hce
 
-/-- **C16_patchcmp_order.** `Patch.Compare` is a strict weak order — in the three-way form `slices.SortFunc`
+/-- **C16_patchcmp_order_partial.** `Patch.Compare` is a strict weak order — in the three-way form `slices.SortFunc`
 takes: `cmp(a,b) < 0 ↔ cmp(b,a) > 0`, and "not less" is transitive — among patches that have at least one
 update and whose target versions lie in a set `V` on which the per-version comparison of step 5 is one. -/
-theorem C16_patchcmp_order (V : Str → Prop) (vc : Str → Str → Int) (hvc : Cmp3 (fun x y => V x ∧ V y) vc) :
+-- Reviewer's note (AUDIT-1): the hypothesis `Cmp3 … vc` is shown satisfiable below only for the harness grammar
+-- (`parseMajor`), and the driver's `order=` flag ("all parse or none") is a proxy for it, not `Cmp3` of the real comparator.
+-- Agreed, and kept as an explicit hypothesis: for npm the generator asserts at start-up that deps.dev's `semver.NPM` orders
+-- the version pool as `parseMajor` does; for Maven (override strategy) C07 proves the comparator is NOT transitive
+-- (`C07_maven_trans_fails`), so there `hvc` can genuinely fail and nothing here says the sorted result is schedule-free.
+theorem C16_patchcmp_order_partial (V : Str → Prop) (vc : Str → Str → Int) (hvc : Cmp3 (fun x y => V x ∧ V y) vc) :
     Cmp3 (fun a b => PatchOK V a ∧ PatchOK V b) (Patch.compare vc) :=
   compare_cmp3 V vc hvc
 
 /-- the hypothesis of `C16_patchcmp_order` holds when every target version parses (override strategy: concrete
 versions) and the semantic comparison is a three-way comparator … -/
-theorem C16_patchcmp_order_parsed {ν} (parse : Str → Option ν) (scmp : ν → ν → Int) (hs : Cmp3 (fun _ _ => True) scmp) :
+theorem C16_patchcmp_order_parsed_partial {ν} (parse : Str → Option ν) (scmp : ν → ν → Int) (hs : Cmp3 (fun _ _ => True) scmp) :
     Cmp3 (fun a b => PatchOK (fun s => (parse s).isSome) a ∧ PatchOK (fun s => (parse s).isSome) b)
       (Patch.compare (verCmp parse scmp)) :=
   compare_cmp3 _ _ (verCmp_cmp3_parsed parse scmp hs)
@@ -162,17 +163,6 @@ theorem C16_patchcmp_order_unparsed {ν} (parse : Str → Option ν) (scmp : ν 
   compare_cmp3 _ _ (verCmp_cmp3_unparsed parse scmp)
 
 /-! ### counterexamples: the hypotheses cannot be dropped -/
-
-/-- ASCII names used in the examples, spelled as bytes so that `decide` can evaluate them -/
-def bytes : String → Str
-  | "a" => [97] | "b" => [98] | "x" => [120] | "y" => [121]
-  | "A" => [65] | "B" => [66] | "C" => [67] | "V" => [86] | "W" => [87] | "X" => [88]
-  | "1.0.0" => [49, 46, 48, 46, 48] | "2.0.0" => [50, 46, 48, 46, 48] | "3.0.0" => [51, 46, 48, 46, 48]
-  | "9.0.0" => [57, 46, 48, 46, 48] | "10.0.0" => [49, 48, 46, 48, 46, 48] | "1x" => [49, 120]
-  | _ => []
-def demoVc : Str → Str → Int := verCmp parseMajor (fun a b => cmpInt a b)
-def one (name vto : String) (fixed : List String) : Patch :=
-  ⟨[⟨bytes name, bytes "1.0.0", bytes vto, false⟩], fixed.map bytes, []⟩
 
 /-- FULL-STRENGTH statement that does NOT hold: "`Patch.Compare` is a strict weak order on all patches with ≥ 1
 update".  Mixing a target version that does not parse ("1x": string comparison) with ones that do (semantic
@@ -194,41 +184,46 @@ theorem C16_patchcmp_needs_updates :
 /-- FULL-STRENGTH statement that does NOT hold: "the result is the same under every schedule" without
 `CmpEqImpliesEq`.  Two patches with the same update but different `Fixed` ids compare equal; `CompactFunc` keeps
 whichever was delivered first. -/
-def demoFn : Task → Option Patch := fun t =>
-  if t = [bytes "A"] then some (one "x" "2.0.0" ["A"])
-  else if t = [bytes "B"] then some (one "x" "2.0.0" ["B"]) else none
-
 theorem C16_final_needs_cmpeq :
     computePatches demoFn true demoVc [bytes "A", bytes "B"] [0, 0] = some [one "x" "2.0.0" ["A"]] ∧
     computePatches demoFn true demoVc [bytes "A", bytes "B"] [1, 0] = some [one "x" "2.0.0" ["B"]] := by decide
 
 /-! ### non-vacuity -/
 
-/-- a universe with follow-up tasks in which all hypotheses of `C16_final` hold: A is fixed by x→2.0.0 which
-introduces C; A,C together are fixed by x→3.0.0; B is fixed by y→2.0.0 -/
-def okFn : Task → Option Patch := fun t =>
-  if t = [bytes "A"] then some ⟨[⟨bytes "x", bytes "1.0.0", bytes "2.0.0", false⟩], [bytes "A"], [bytes "C"]⟩
-  else if t = [bytes "A", bytes "C"] then some ⟨[⟨bytes "x", bytes "1.0.0", bytes "3.0.0", false⟩], [bytes "A"], []⟩
-  else if t = [bytes "B"] then some ⟨[⟨bytes "y", bytes "1.0.0", bytes "2.0.0", false⟩], [bytes "B"], []⟩
-  else none
-
-def okA : Patch := ⟨[⟨bytes "x", bytes "1.0.0", bytes "2.0.0", false⟩], [bytes "A"], [bytes "C"]⟩
-def okAC : Patch := ⟨[⟨bytes "x", bytes "1.0.0", bytes "3.0.0", false⟩], [bytes "A"], []⟩
-def okB : Patch := ⟨[⟨bytes "y", bytes "1.0.0", bytes "2.0.0", false⟩], [bytes "B"], []⟩
 example :
     exec (outCP okFn) (spawnCP okFn true) [0, 0, 0] (initCP [bytes "A", bytes "B"]) = some ⟨[], [okA, okB, okAC]⟩ ∧
     exec (outCP okFn) (spawnCP okFn true) [1, 0, 0] (initCP [bytes "A", bytes "B"]) = some ⟨[], [okB, okA, okAC]⟩ ∧
     CmpEqImpliesEq demoVc [okA, okB, okAC] ∧ (∀ p ∈ [okA, okB, okAC], ∀ u ∈ p.updates, (parseMajor u.vto).isSome) ∧
     sortCompact demoVc [okA, okB, okAC] = [okAC, okB, okA] := by decide
 
-/-- a per-version comparison satisfying the hypothesis of `C16_patchcmp_order`: all versions parse -/
+/-- the hypothesis `hce` of `C16_schedule_independent_partial` (CmpEqImpliesEq on every list drawn from the image of the
+strategy) is satisfiable: `okFn` only ever produces three patches, pairwise separated by `Compare` -/
+example : ∀ c : List Patch, (∀ p ∈ c, ∃ t, outCP okFn t = some p) → CmpEqImpliesEq demoVc c := by
+  have img : ∀ t p, outCP okFn t = some p → p ∈ [okA, okAC, okB] := by
+    intro t p h
+    have := (outCP_some h).1
+    unfold okFn at this
+    split at this
+    · cases this; simp [okA]
+    · split at this
+      · cases this; simp [okAC]
+      · split at this
+        · cases this; simp [okB]
+        · cases this
+  have sep : ∀ a ∈ [okA, okAC, okB], ∀ b ∈ [okA, okAC, okB], Patch.compare demoVc a b = 0 → a = b := by decide
+  intro c hc a ha b hb hab
+  obtain ⟨ta, hta⟩ := hc a ha
+  obtain ⟨tb, htb⟩ := hc b hb
+  exact sep a (img ta a hta) b (img tb b htb) hab
+
+/-- a per-version comparison satisfying the hypothesis of `C16_patchcmp_order_partial`: all versions parse -/
 example : Cmp3 (fun x y => (parseMajor x).isSome ∧ (parseMajor y).isSome) demoVc :=
   verCmp_cmp3_parsed parseMajor _ (cmp3_key (fun n : Nat => (n : Int)))
 
-/-- **C16_terminates.** If the vulnerabilities patches can introduce lie in a finite universe `U` (at most `b` per
+/-- **C16_terminates_partial.** If the vulnerabilities patches can introduce lie in a finite universe `U` (at most `b` per
 patch), then (i) no schedule is longer than the initial measure — the loop `for toProcess > 0` cannot run
 forever — and (ii) breadth-first delivery with that much fuel empties the worklist, so complete schedules exist. -/
-theorem C16_terminates (patchFn : Task → Option Patch) (grouped : Bool) (U : List Str) (b : Nat)
+theorem C16_terminates_partial (patchFn : Task → Option Patch) (grouped : Bool) (U : List Str) (b : Nat)
     (hf : FiniteCP U b patchFn) (vulns : List Str) :
     let μ := mu (rankCP U) (b + 1) (initCP vulns).pending
     (∀ σ s', exec (outCP patchFn) (spawnCP patchFn grouped) σ (initCP vulns) = some s' → σ.length ≤ μ) ∧
@@ -253,12 +248,37 @@ example : FiniteCP [bytes "A", bytes "B", bytes "C"] 1 okFn := by
       · cases h; simp
       · cases h
 
-/-- without the finiteness hypothesis the loop need not terminate: a strategy that always introduces a fresh
-vulnerability keeps the worklist non-empty for ever (after n deliveries one task is still pending) -/
-def freshFn : Task → Option Patch := fun t => some ⟨[⟨[120], [], [t.length], false⟩], [], [[t.length + 1000]]⟩
-theorem C16_terminates_needs_finite :
-    ∀ n ≤ 6, ((exec (outCP freshFn) (spawnCP freshFn true) (List.replicate n 0) (initCP [[0]])).map (·.pending.length)) = some 1 := by
-  decide
+/-- without the finiteness hypothesis the loop need not terminate: a strategy that introduces a fresh vulnerability on
+every attempt keeps exactly one attempt pending after ANY number of deliveries -/
+theorem C16_terminates_needs_finite : ∀ n : Nat,
+    ((exec (outCP freshFn) (spawnCP freshFn true) (List.replicate n 0) (initCP [[0]])).map (·.pending.length)) = some 1 := by
+  have spawn_eq : ∀ t : Task, (∀ x ∈ t, x.length ≤ t.length) →
+      spawnCP freshFn true t = [t ++ [List.replicate (t.length + 1) 7]] := by
+    intro t ht
+    have hnot : t.contains (List.replicate (t.length + 1) 7) = false := by
+      cases hc : t.contains (List.replicate (t.length + 1) 7) with
+      | false => rfl
+      | true =>
+        have := ht _ (by simpa using hc)
+        simp only [List.length_replicate] at this
+        omega
+    have hn : List.replicate (t.length + 1) 7 ∉ t := by simpa using hnot
+    simp [spawnCP, outCP, freshFn, newlyAdded, hn]
+  have key : ∀ (n : Nat) (t : Task) (c : List Patch), (∀ x ∈ t, x.length ≤ t.length) →
+      ((exec (outCP freshFn) (spawnCP freshFn true) (List.replicate n 0) ⟨[t], c⟩).map (·.pending.length)) = some 1 := by
+    intro n
+    induction n with
+    | zero => intro t c _; rfl
+    | succ n ih =>
+      intro t c ht
+      simp only [List.replicate_succ, exec, stepAt, List.getElem?_cons_zero, List.eraseIdx_cons_zero, List.nil_append, spawn_eq t ht]
+      apply ih
+      intro x hx
+      rcases List.mem_append.mp hx with h | h
+      · have := ht x h; simp only [List.length_append, List.length_singleton]; omega
+      · simp only [List.mem_singleton] at h; subst h; simp
+  intro n
+  exact key n [[0]] [] (by simp)
 
 /-! ## (b) RequestCache -/
 open Scalibr.Cache in
@@ -304,11 +324,13 @@ theorem C16_cache_once (keyOf : Nat → Option Cache.K) (as : List Cache.Act) :
     | false => simp [hsk] at hn; split at hc <;> omega
 
 open Scalibr.Cache in
-/-- **C16_cache_linear.** Whatever a caller of `Get(k)` returns — `(v, nil)` or `(zero, err)` — is the result
+/-- **C16_cache_provenance** (formerly `C16_cache_linear`; it is provenance, NOT linearizability — a caller could return
+any result ever published for `k` and still satisfy it; the linearizability statement is `C16_cache_linearizable_partial`
+below).  Whatever a caller of `Get(k)` returns — `(v, nil)` or `(zero, err)` — is the result
 that a fetch *for the same key* published earlier in the history (`as = as1 ++ publish t' r :: as2`, `t'` was
 fetching `k`), or a value that an earlier `SetMap` installed for `k`.  In particular errors are only ever
 reported to callers of the key whose fetch failed, and no value crosses keys. -/
-theorem C16_cache_linear (keyOf : Nat → Option Cache.K) (as : List Cache.Act) (t : Nat) (k : Cache.K) (r : Cache.R)
+theorem C16_cache_provenance (keyOf : Nat → Option Cache.K) (as : List Cache.Act) (t : Nat) (k : Cache.K) (r : Cache.R)
     (hd : (Cache.run keyOf as).pcs t = .done k r) :
     (∃ as1 t' as2 c, as = as1 ++ Cache.Act.publish t' r :: as2 ∧ (Cache.run keyOf as1).pcs t' = .fetching c k) ∨
     (∃ v as1 m as2, r = .ok v ∧ as = as1 ++ Cache.Act.setMap m :: as2 ∧ m k = some v) := by
@@ -320,6 +342,85 @@ theorem C16_cache_linear (keyOf : Nat → Option Cache.K) (as : List Cache.Act) 
   · rcases Cache.setv_history k v as (Cache.init keyOf) hs with h0 | ⟨as1, m, as2, he, hm⟩
     · simp [Cache.init] at h0
     · exact Or.inr ⟨v, as1, m, as2, hv, he, hm⟩
+
+
+open Scalibr.Cache in
+/-- **C16_cache_linearizable_partial.**  Hypothesis (`RunOK`): `SetMap` is only executed while no fetch is in flight
+(it loads a saved cache before the client is used; without this the statement is FALSE, see
+`C16_cache_setmap_overlap_not_linearizable`).  Then for every interleaving `as` of lookup / publish / wake / SetMap /
+GetMap steps (any number of callers and keys) the ghost log `lin` of Model/CacheLin.lean — which never influences the
+run (`lrun_base`) — is a linearization:
+ 1. it is a legal history of the SEQUENTIAL specification "a map with fetch-on-miss" that ends in the actual cache:
+    every `Get` in it returns the stored value on a hit and the outcome of its fetch on a miss (stored iff it succeeded),
+    every `GetMap` returns exactly the map at that point;
+ 2. every completed call of `Get` is in it with the result it really returned, at a time `τ` inside the call's
+    interval `[tLook, tRet]` (first critical section … result available);
+ 3. nothing else is in it: every `Get` entry belongs to a caller that has returned that result, or is blocked in `wg.Wait()`
+    on a call whose (published) result it will return; no caller occurs twice;
+ 4. its order is the order of the times `τ`.
+ 2 + 4 give the real-time clause: if call A's result was available before call B's first step (`tRet A < tLook B`), then
+ `τ_A < τ_B`, so A precedes B.  "At most once per key per success" for the real fetch function is `C16_cache_once`
+ (in the sequential history a waiter of a FAILED call counts as a miss whose fetch fails with the shared error). -/
+theorem C16_cache_linearizable_partial (keyOf : Nat → Option K) (as : List Act) (hq : RunOK (init keyOf) as) :
+    let l := lrun keyOf as
+    l.base = run keyOf as ∧
+    SpecRun (fun _ => none) (l.lin.map (·.2)) l.base.cache ∧
+    (∀ t k r, l.base.pcs t = .done k r →
+      ∃ τ a b, (τ, LinOp.get t k r) ∈ l.lin ∧ l.tLook t = some a ∧ l.tRet t = some b ∧ a ≤ τ ∧ τ ≤ b) ∧
+    (∀ τ t k r, (τ, LinOp.get t k r) ∈ l.lin →
+      l.base.pcs t = .done k r ∨ ∃ c, l.base.pcs t = .waiting c k ∧ l.base.results c = some r) ∧
+    (callers l.lin).Nodup ∧
+    l.lin.Pairwise (fun x y => x.1 ≤ y.1) := by
+  intro l
+  have h1 := linv_runFrom as (linit keyOf) (linv_init keyOf) hq
+  have h2 := linv2_runFrom as (linit keyOf) (linv_init keyOf) (linv2_init keyOf) hq
+  exact ⟨lrun_base keyOf as, h1.spec, h1.done_lin, h1.lin_real, h2.nodup, h2.sorted⟩
+
+open Scalibr.Cache in
+/-- the real-time clause spelled out: a call whose result was available before another call's first step is linearized
+strictly earlier -/
+theorem C16_cache_realtime (keyOf : Nat → Option K) (as : List Act) (hq : RunOK (init keyOf) as)
+    (tA tB : Nat) (kA kB : K) (rA rB : R)
+    (hA : (lrun keyOf as).base.pcs tA = .done kA rA) (hB : (lrun keyOf as).base.pcs tB = .done kB rB)
+    (hrt : ∀ b a, (lrun keyOf as).tRet tA = some b → (lrun keyOf as).tLook tB = some a → b < a) :
+    ∃ τA τB, (τA, LinOp.get tA kA rA) ∈ (lrun keyOf as).lin ∧ (τB, LinOp.get tB kB rB) ∈ (lrun keyOf as).lin ∧ τA < τB := by
+  obtain ⟨_, _, hd, _, _, _⟩ := C16_cache_linearizable_partial keyOf as hq
+  obtain ⟨τA, aA, bA, hmA, _, hbA, _, h2A⟩ := hd tA kA rA hA
+  obtain ⟨τB, aB, bB, hmB, haB, _, h1B, _⟩ := hd tB kB rB hB
+  have := hrt bA aB hbA haB
+  exact ⟨τA, τB, hmA, hmB, by omega⟩
+
+/-! FULL-STRENGTH statement that does NOT hold: "RequestCache is linearizable for every interleaving of Get / SetMap / GetMap".
+One caller fetches key 0; while the fetch is in flight `SetMap({0 ↦ 5})` runs; the fetch then succeeds with 7 and `Get`
+returns 7; `GetMap` afterwards shows `0 ↦ 7`.  Sequentially, `SetMap` before `Get` makes `Get` a hit returning 5; `Get`
+before `SetMap` leaves `0 ↦ 5` for `GetMap`.  (The publish step overwrites what SetMap installed: `rq.cache[key] = c.val`.) -/
+inductive SOp | get (ret : Cache.R) | set (v : Option Cache.V) | snap (v : Option Cache.V)
+deriving DecidableEq
+
+/-- the sequential specification restricted to the single key 0, executable -/
+def seqStep (m : Option Cache.V) : SOp → Option (Option Cache.V)
+  | .get (.ok v) => match m with
+    | some w => if w = v then some m else none
+    | none => some (some v)
+  | .get .err => match m with
+    | some _ => none
+    | none => some none
+  | .set v => some v
+  | .snap v => if v = m then some m else none
+
+def seqOK (ops : List SOp) : Bool := (ops.foldlM seqStep none).isSome
+
+theorem C16_cache_setmap_overlap_not_linearizable :
+    let keyOf : Nat → Option Nat := fun t => if t = 0 then some 0 else none
+    let s := Cache.run keyOf [.lookup 0, .setMap (fun k => if k = 0 then some 5 else none), .publish 0 (.ok 7), .getMap]
+    -- what the three calls observed
+    s.pcs 0 = .done 0 (.ok 7) ∧ (s.maps.head?.map (· 0)) = some (some 7) ∧
+    -- GetMap started after both other calls had returned, so real-time order puts it last; neither remaining sequential
+    -- order of {Get → ok 7, SetMap {0↦5}, GetMap → {0↦7}} is legal
+    (∀ ops ∈ [[SOp.get (.ok 7), .set (some 5), .snap (some 7)], [.set (some 5), .get (.ok 7), .snap (some 7)]],
+      seqOK ops = false) ∧
+    -- (the order Get, GetMap, SetMap would be legal, but GetMap ran after SetMap had returned)
+    seqOK [.get (.ok 7), .snap (some 7), .set (some 5)] = true := by decide
 
 /-- the same for the cache content (what GetMap hands out) -/
 theorem C16_cache_content (keyOf : Nat → Option Cache.K) (as : List Cache.Act) (k : Cache.K) (v : Cache.V)
@@ -356,6 +457,14 @@ example :
                               .setMap (fun _ => none), .getMap]
     s.pcs 0 = .done 0 .err ∧ s.pcs 1 = .done 0 .err ∧ s.pcs 2 = .done 0 (.ok 7) ∧ s.pcs 3 = .done 0 (.ok 7) ∧
     s.nfetch 0 = 2 ∧ s.nerr 0 = 1 ∧ s.cache 0 = none := by decide
+
+/-- the hypothesis of `C16_cache_linearizable_partial` is satisfiable by a history with a SetMap, waiters, a failed and a
+successful fetch -/
+example : Cache.RunOK (Cache.init (fun t => if t < 4 then some 0 else none))
+    [.setMap (fun k => if k = 1 then some 9 else none), .lookup 0, .lookup 1, .publish 0 .err, .wake 1, .lookup 2, .publish 2 (.ok 7),
+     .lookup 3, .getMap, .setMap (fun _ => none), .getMap] := by
+  simp [Cache.RunOK, Cache.stepOK, Cache.step, Cache.init, Cache.upd]
+  intro k hk; simp [hk]
 
 /-! ## (c) the status ticker: `C16_ticker_guarded` lives in Properties/C16Ticker.lean, the only module that depends on the
 regenerated table, so that a change of extractor/filesystem that breaks it leaves the obligations above standing. -/
